@@ -188,11 +188,18 @@ def generate(outdir, limit, seed):
 
 
 def sh(cmd, cwd=None, env=None, timeout=2400):
+    import signal
+    p = subprocess.Popen(cmd, shell=True, cwd=cwd, env=env, stdout=subprocess.PIPE, stderr=subprocess.STDOUT, text=True, start_new_session=True)
     try:
-        p = subprocess.run(cmd, shell=True, cwd=cwd, env=env, capture_output=True, text=True, timeout=timeout)
-        return p.returncode, p.stdout + p.stderr
+        out, _ = p.communicate(timeout=timeout)
+        return p.returncode, out
     except subprocess.TimeoutExpired:
         return 124, 'TIMEOUT'
+    finally:
+        try:
+            os.killpg(p.pid, signal.SIGKILL)      # the whole group: a mutant may loop forever in a grandchild
+        except OSError:
+            pass
 
 
 def run_one(d):
